@@ -28,26 +28,35 @@ theorem reject_payload_forged (mac : List UInt8 → List UInt8) (nowNs life : In
   · simp [hl]
   · simp [hl, hm]
 
-/-- `CheckPayload`: a payload with a correct MAC is accepted exactly while `now − stored time ≤ life` (nanoseconds
-against whole seconds): one nanosecond past the lifetime it is refused, at exactly the lifetime it still passes. -/
+/-- `CheckPayload`: a payload with a correct MAC is refused exactly when its stored time is older than the lifetime
+(`olderThan`, Go's `time.Since(time.Unix(t,0)) > life·Second`), accepted otherwise. -/
 theorem reject_payload_expired (mac : List UInt8 → List UInt8) (nowNs life : Int) (p bs : List UInt8)
     (hd : hexDecode p = some bs) (hl : bs.length = 32) (hm : bs.drop 16 = (mac (bs.take 16)).take 16) :
-    (nowNs - i64OfNat (beNat ((bs.drop 8).take 8)) * 1000000000 > life * 1000000000 →
-        checkPayload mac nowNs life p = .err "payload expired")
-    ∧ (nowNs - i64OfNat (beNat ((bs.drop 8).take 8)) * 1000000000 ≤ life * 1000000000 →
-        checkPayload mac nowNs life p = .ok true) := by
-  unfold checkPayload olderThan
+    (olderThan nowNs (i64OfNat (beNat ((bs.drop 8).take 8))) life = true → checkPayload mac nowNs life p = .err "payload expired")
+    ∧ (olderThan nowNs (i64OfNat (beNat ((bs.drop 8).take 8))) life = false → checkPayload mac nowNs life p = .ok true) := by
+  unfold checkPayload
   rw [hd]
   constructor
   · intro h; simp [hl, hm, h]
-  · intro h; simp [hl, hm, Int.not_lt.mpr h]
+  · intro h; simp [hl, hm, h]
 
-/-- What `GeneratePayload` issues under the secret is accepted by `CheckPayload` under the same secret for `life`
-seconds counted from the whole second of issue (the stored time is `(now + life ns) / 1s`). -/
+/-- The lifetime boundary is strict: for timestamps and lifetimes in the range where Go's time arithmetic does not
+wrap, "older than the lifetime" is `now − t·10⁹ > life·10⁹` in nanoseconds — one nanosecond past the lifetime is too
+old, exactly the lifetime is not. -/
+theorem lifetime_boundary (nowNs t life : Int) (ht : -9223372036854775808 ≤ t ∧ t < 9223372036854775808 - 62135596800)
+    (hl : -9223372036854775808 ≤ life * 1000000000 ∧ life * 1000000000 < 9223372036854775808) :
+    (olderThan nowNs t life = true ↔ nowNs - t * 1000000000 > life * 1000000000)
+    ∧ olderThan (t * 1000000000 + life * 1000000000) t life = false
+    ∧ olderThan (t * 1000000000 + life * 1000000000 + 1) t life = true := by
+  rw [olderThan_inrange _ t life ht hl, olderThan_inrange _ t life ht hl, olderThan_inrange _ t life ht hl]
+  refine ⟨by simp, by simp, by simp; omega⟩
+
+/-- What `GeneratePayload` issues under the secret is accepted by `CheckPayload` under the same secret as long as the
+stored time — the whole second of `issue time + life ns` — is not older than the lifetime. -/
 theorem payload_issued_is_accepted (mac : List UInt8 → List UInt8) (hmac : ∀ x, (mac x).length = 32)
     (nonce : List UInt8) (hn : nonce.length = 8) (issuedNs life nowNs : Int) (hi : 0 ≤ issuedNs + life)
-    (hfresh : nowNs - ((issuedNs + life) / 1000000000) * 1000000000 ≤ life * 1000000000)
-    (h63 : (issuedNs + life) / 1000000000 < 9223372036854775808) :
+    (h63 : (issuedNs + life) / 1000000000 < 9223372036854775808)
+    (hfresh : olderThan nowNs ((issuedNs + life) / 1000000000) life = false) :
     checkPayload mac nowNs life (hexEncode (generatePayload mac nonce issuedNs life)) = .ok true := by
   have hq : 0 ≤ (issuedNs + life) / 1000000000 := Int.ediv_nonneg hi (by decide)
   have hu : u64OfInt ((issuedNs + life) / 1000000000) = ((issuedNs + life) / 1000000000).toNat := by
@@ -76,18 +85,17 @@ theorem payload_issued_is_accepted (mac : List UInt8 → List UInt8) (hmac : ∀
     rw [e2]
     simp only [this, ↓reduceIte]
     omega
-  unfold checkPayload olderThan
+  unfold checkPayload
   rw [hgen, hexDecode_hexEncode]
-  simp only [hlen, ne_eq, not_true_eq_false, ↓reduceIte, htk, hdr, hexp, hstored]
-  simp [Int.not_lt.mpr hfresh]
+  simp only [hlen, ne_eq, not_true_eq_false, ↓reduceIte, htk, hdr, hexp, hstored, hfresh]
+  simp
 
-/-- A proof older than the lifetime (`now − timestamp > lifetime`, nanoseconds against whole seconds) is rejected; the
-comparison is strict, so at exactly the lifetime the proof still passes this check. -/
+/-- A proof older than the lifetime (`olderThan`; strict, see `lifetime_boundary`) is rejected. -/
 theorem reject_proof_expired (env : Env) (p : ProofIn) (m : Parsed) (hp : env.payloadOk = true)
-    (hc : convertTonProofMessage p = .ok m) (ht : env.nowNs - m.ts * 1000000000 > env.lifeProof * 1000000000) :
+    (hc : convertTonProofMessage p = .ok m) (ht : olderThan env.nowNs m.ts env.lifeProof = true) :
     checkProof H verify env p = .err "proof has been expired" := by
   unfold checkProof checkProofWith
-  simp [hp, hc, olderThan, ht]
+  simp [hp, hc, ht]
 
 /-- A domain the domain check refuses, or on which it fails, is rejected. -/
 theorem reject_domain (env : Env) (p : ProofIn) (h : env.domainOk ≠ some true) :
@@ -124,7 +132,7 @@ lifetime, domain, account id) and its result is that of obtaining the key and ve
 theorem checkProofWith_shape (parse : BocResult → Outcome (List UInt8)) (env : Env) (p : ProofIn) :
     (∃ e, checkProofWith parse H verify env p = .err e) ∨
     (∃ m wc acc, env.payloadOk = true ∧ convertTonProofMessage p = .ok m ∧
-      ¬ (env.nowNs - m.ts * 1000000000 > env.lifeProof * 1000000000) ∧ env.domainOk = some true ∧
+      olderThan env.nowNs m.ts env.lifeProof = false ∧ env.domainOk = some true ∧
       parseAccountID p.address = .ok (wc, acc) ∧
       checkProofWith parse H verify env p =
         (match obtainKey parse H env acc p with
@@ -162,7 +170,7 @@ theorem checkProofWith_shape (parse : BocResult → Outcome (List UInt8)) (env :
               refine Or.inr ⟨m, wc, acc, ?_, ?_, ?_, ?_, ?_, ?_⟩
               · first | rfl | trivial | exact hp
               · first | rfl | trivial
-              · simpa [olderThan] using ho
+              · simpa using ho
               · first | rfl | trivial
               · first | rfl | trivial
               · first | rfl | trivial
@@ -406,7 +414,7 @@ theorem accept_honest (hlen : ∀ x, (H x).length = 32) (sign : List UInt8 → L
     (v : Version) (hv : v ≠ .highloadV2R2) (code : Cell) (hcode : code.ty ≠ tyPruned) (o : Opts) (a : Address)
     (haddr : address H code v (pub sk) o = .ok a)
     (env : Env) (hp : env.payloadOk = true) (hdom : env.domainOk = some true)
-    (ts : Int) (hfresh : ¬ (env.nowNs - ts * 1000000000 > env.lifeProof * 1000000000))
+    (ts : Int) (hfresh : olderThan env.nowNs ts env.lifeProof = false)
     (hknown : ∃ kh, env.known.find? (fun p => p.1 == code.hashO H) = some (kh, v.goIndex))
     (hget : getWalletPubKey env.getter = .ok (pub sk) ∨ ∀ k, getWalletPubKey env.getter ≠ .ok k)
     (payload domain : List UInt8) :
@@ -443,7 +451,7 @@ theorem accept_honest (hlen : ∀ x, (H x).length = 32) (sign : List UInt8 → L
   rw [← hpdef] at hconv
   unfold checkProof checkProofWith
   rw [hconv]
-  simp only [hp, Bool.not_true, Bool.false_eq_true, ↓reduceIte, olderThan, hfresh, decide_false, hdom, hacc, hkey]
+  simp only [hp, Bool.not_true, Bool.false_eq_true, ↓reduceIte, hfresh, hdom, hacc, hkey]
   have hsig : p.signature.getD [] = sign sk (createMessage H { workchain := a.workchain, address := a.hash, domain := domain, ts := ts, payload := payload }) := rfl
   rw [hsig]
   simp [signatureVerify, hpub, sigCorrect]
@@ -452,8 +460,7 @@ theorem accept_honest (hlen : ∀ x, (H x).length = 32) (sign : List UInt8 → L
 
 /-- non-vacuity of the time premises: a proof 299 s old under the default lifetime of 300 s is within the lifetime, one
 301 s old is not -/
-example : ¬ ((1000 * 1000000000 + 5 : Int) - 701 * 1000000000 > 300 * 1000000000) ∧
-    ((1000 * 1000000000 + 5 : Int) - 699 * 1000000000 > 300 * 1000000000) := by decide
+example : olderThan (1000 * 1000000000 + 5) 701 300 = false ∧ olderThan (1000 * 1000000000 + 5) 699 300 = true := by decide
 
 /-- non-vacuity of `message_binds`: the premises hold for an ordinary message -/
 example : ({ workchain := 0, address := List.replicate 32 7, domain := [100], ts := 1700000000, payload := [1, 2] } : Parsed).address.length = 32 := by
